@@ -1,5 +1,5 @@
 """C11 — exactly the needed files are on disk: deletion guards, who may delete, pending outputs, version pins."""
-from ..rules import (comparisons, bool_tests, origin_pred_call, origin_pred_field, sites_reaching, ok_guarded, in_cycle)
+from ..rules import (comparisons, bool_tests, origin_pred_call, origin_pred_field, sites_reaching, ok_guarded, in_cycle, result_tests)
 from ..dataflow import origins
 from ..lck import is_release_point, is_unlocked_fair
 from .. import pair
@@ -261,7 +261,35 @@ def pair1(P, R, L):
                 "the compaction manifest pins the version its inputs were chosen from", "")
 
 
+def gc_on_open(P, R, L):
+    R.clause("ORD-16", "every successful DB::open runs remove_obsolete_files (orphans of an earlier crash are reclaimed), after recovery; a "
+             "successful flush and a successful table compaction run it too")
+    o = P.body("db::DB::open")
+    if o is None:
+        return R.missing_anchor("ORD-16", "db::DB::open")
+    R.analysed(o)
+    rof = sites_reaching(P, o, K.REMOVE_OBSOLETE)
+    oks = K._ok_blocks(o)
+    ok = bool(rof) and bool(oks) and all(o.must_pass_fs(x, through_nodes=[r.bb for r in rof]) for x in oks)
+    R.check("ORD-16", "db::DB::open|gc-on-every-successful-open", ok, K.where(o),
+            "every path to `Ok(db)` passes remove_obsolete_files", "gc sites at lines %s" % [r.line for r in rof])
+    cm = P.body(K.COMPACT_MEMTABLE)
+    if cm is not None:
+        R.analysed(cm)
+        la = sites_reaching(P, cm, K.LOG_AND_APPLY)
+        rof = sites_reaching(P, cm, K.REMOVE_OBSOLETE)
+        ok = bool(la) and bool(rof)
+        for a in la:
+            for t in result_tests(cm, a.dest["l"]):
+                for e in t.ok:
+                    if not all(cm.must_pass(r, through_nodes=[x.bb for x in rof], start=e) for r in cm.return_blocks()):
+                        ok = False
+        R.check("ORD-16", K.COMPACT_MEMTABLE + "|gc-after-successful-flush", ok, K.where(cm),
+                "after a successfully recorded flush the obsolete WAL is reclaimed", "")
+
+
 def run(P, R, L):
+    gc_on_open(P, R, L)
     grd5(P, R, L)
     own4(P, R, L)
     ord13(P, R, L)
